@@ -279,6 +279,7 @@ _envonly = dict(validate=False, native_replay=False, env_only=True)
 CHECKS["C11"] = {
     "harnesses": [
         H("c11.VH_maxconn", {}, {}, covers=["probed while proxying"], **_envonly),
+        H("c11.VH_limits", {}, {}, covers=["limits provisioned"], **_envonly),
         H("c11.VH_active", {}, {}, covers=["checked"], **_envonly),
         H("c11.VH_failwindow", {}, {}, covers=["queried", "out of rotation"], **_envonly),
         H("c11.VH_retry", {}, {}, covers=["gave up", "connected after retries"], **_envonly),
